@@ -327,7 +327,7 @@ impl<'r> Gen<'r> {
         let mut branches = Vec::new();
         for _ in 0..n {
             let c = self.expr(&Ty::Bool, depth);
-            let b = self.value_block(ty, depth);
+            let b = self.value_block2(ty, depth, true);
             branches.push((c, b));
         }
         let els = Some(self.value_block(ty, depth));
@@ -335,6 +335,33 @@ impl<'r> Gen<'r> {
     }
 
     fn value_block(&mut self, ty: &Ty, depth: u32) -> Block {
+        self.value_block2(ty, depth, false)
+    }
+
+    /// `may_diverge`: the arm may leave the function instead of yielding a value (some other arm has a value)
+    fn value_block2(&mut self, ty: &Ty, depth: u32, may_diverge: bool) -> Block {
+        if may_diverge && !self.no_effects && self.ctx.len() >= 1 && self.rng.chance(1, 40) {
+            let ret_ty = self.ctx.last().map(|c| c.ret.clone()).unwrap_or(Ty::Void);
+            let in_fn = !self.scopes.is_empty();
+            if in_fn {
+                self.feat("diverging_arm_in_value_position");
+                self.scopes.push(Vec::new());
+                let mut b = Block::default();
+                if self.rng.chance(1, 3) {
+                    if let Some(s) = self.simple_stmt(depth) {
+                        b.stmts.push(s);
+                    }
+                }
+                if ret_ty == Ty::Void {
+                    b.stmts.push(Stmt::Ret(None));
+                } else {
+                    let v = self.expr(&ret_ty, depth.min(1));
+                    b.stmts.push(Stmt::Ret(Some(v)));
+                }
+                self.scopes.pop();
+                return b;
+            }
+        }
         self.scopes.push(Vec::new());
         let mut b = Block::default();
         if self.rng.chance(1, 4) {
@@ -393,7 +420,8 @@ impl<'r> Gen<'r> {
                 }
                 _ => None,
             };
-            let body = if *ty == Ty::Void { self.stmt_block(depth, 2) } else { self.value_block(ty, depth) };
+            let first = arms.is_empty();
+            let body = if *ty == Ty::Void { self.stmt_block(depth, 2) } else { self.value_block2(ty, depth, !first) };
             self.scopes.pop();
             arms.push(CaseArm { variant: vn, bind, body });
         }
@@ -917,7 +945,9 @@ impl<'r> Gen<'r> {
             if self.rng.chance(1, 2) {
                 let r = if self.rng.chance(1, 2) { Ty::Void } else { fields[0].1.clone() };
                 let ps = if self.rng.chance(1, 2) { vec![Ty::Int] } else { vec![] };
-                fields.push((format!("m{}", nf), Ty::Fn(ps, Box::new(r))));
+                // the method may come before, between or after the data fields
+                let at = self.rng.below(fields.len() + 1);
+                fields.insert(at, (format!("m{}", nf), Ty::Fn(ps, Box::new(r))));
             }
             self.p.blobs.push(BlobDecl { name: format!("Bl{}", i), fields });
             self.p.items.push(Item::Blob(i));
